@@ -331,6 +331,15 @@ func ApplyLib(n Node, in []tensor.Tensor, p *Passed) (tensor.Tensor, error) {
 			o = append([]int{}, s...)
 		}
 		if p != nil {
+			h := len(s)
+			for _, v := range s {
+				h += v
+			}
+			if s != nil && h%2 == 0 {
+				// the caller's slice is a prefix of a longer buffer: spare capacity holding garbage
+				buf := []int{-7, -7, -7, -7, -7, -7, -7, -7, -7, -7, -7, -7}
+				o = buf[:copy(buf, s):len(s)+4]
+			}
 			p.Ints = append(p.Ints, o)
 		}
 		return o
@@ -338,6 +347,18 @@ func ApplyLib(n Node, in []tensor.Tensor, p *Passed) (tensor.Tensor, error) {
 	ranges := func(r []ref.Range) []tensor.Range {
 		o := ToRanges(r)
 		if p != nil {
+			h := len(r)
+			for _, v := range r {
+				h += v.From + v.To
+			}
+			if r != nil && h%2 == 0 {
+				// the caller's index is a prefix of a longer buffer (a reused index buffer)
+				buf := make([]tensor.Range, len(r)+6)
+				for i := range buf {
+					buf[i] = tensor.Range{From: 5, To: 2}
+				}
+				o = buf[:copy(buf, o):len(r)+6]
+			}
 			p.Ranges = append(p.Ranges, o)
 		}
 		return o
@@ -410,6 +431,10 @@ func ApplyLib(n Node, in []tensor.Tensor, p *Passed) (tensor.Tensor, error) {
 	case "concat":
 		ts := append([]tensor.Tensor{}, in...)
 		if p != nil {
+			if len(in)%2 == 0 {
+				// the caller's list is a prefix of a longer buffer
+				ts = append(make([]tensor.Tensor, 0, len(in)+4), in...)
+			}
 			p.Tensors = append(p.Tensors, ts)
 		}
 		return tensor.Concat(ts, n.I)
